@@ -55,7 +55,7 @@ THEOREMS = [
 ]
 CORPUS = os.path.join(vlib.VERIF, "corpus", "C06")
 STD_IMPORTS = ["errors", "fmt", "sort", "strings", "testing"]
-WORKERS = 4
+WORKERS = 5
 
 
 # --------------------------------------------------------------------------- module generator
@@ -839,7 +839,7 @@ def run(ctx):
         return True
 
     if ctx.quick:
-        mods = [("q_nostd", 6, False, True), ("q_std", 4, True, False)]
+        mods = [("q_nostd", 6, False, True), ("q_std", 3, True, False)]
         matrix_n, orders, subsets = 6, 1, 2
         race = {"q_nostd": [(4, 0), (16, 13)], "q_std": []}
         ncrafted, nperm = 14, 3
@@ -857,7 +857,7 @@ def run(ctx):
         files, meta = gen_module(mrng, "%s_s%d" % (name, ctx.seed), npk, std, broken)
         procs_all = [1, 2, 3, 4, 8, 16]
         matrix = []
-        for k in range(matrix_n):
+        for k in range(matrix_n if not (ctx.quick and std) else 4):
             procs = procs_all[k % len(procs_all)]
             ys = 0 if k in (0, 1) else mrng.below(10 ** 6) + 1
             trace = (k % 2 == 0) or not ctx.quick
@@ -952,8 +952,23 @@ def run(ctx):
 def replay(ctx, sc, scrace, st):
     import base64
     obj = json.load(open(ctx.replay))
+    if "delivery_1" in obj:
+        # two orders of delivery of the same problems through the real -merge
+        gob = vlib.build_harness(ctx, "c06gob")
+        jobs = [{"id": k, "runs": [{"checked": sorted(set(d["file"] for d in obj[k])), "diags": obj[k]}]} for k in ("delivery_1", "delivery_2")]
+        jdir = os.path.dirname(ctx.path("gob", "x"))
+        rc, so, se = vlib.run([gob, "run", "-bin", sc, "-dir", jdir], input="".join(json.dumps(j) + "\n" for j in jobs), env=vlib.go_env(), timeout=600)
+        if rc != 0:
+            raise vlib.HarnessError("c06gob run failed: " + se[-1000:])
+        res = [json.loads(l) for l in so.splitlines()]
+        same = res[0]["stdout"] == res[1]["stdout"] and res[0]["rc"] == res[1]["rc"]
+        print("the two deliveries print %s" % ("the same list" if same else "different lists"))
+        ctx.coverage.update({"evaluations": 2, "distinct_nontrivial": 0, "rule": "replay of " + os.path.basename(ctx.replay)})
+        if not same:
+            ctx.violation("replayed_" + os.path.basename(ctx.replay), obj, text="C06: replay reproduces: " + obj["what"])
+        return vlib.finish(ctx, "proof")
     if "module_tar_gz_base64" not in obj:
-        raise vlib.HarnessError("replay file has no module (sort replays: use harness/cmd/c06gob as described in the file)")
+        raise vlib.HarnessError("replay file names a broken correspondence, not an input; see its `correspondence` field")
     moddir = ctx.path("replay", "mod", "x")
     moddir = os.path.dirname(moddir)
     with tarfile.open(fileobj=io.BytesIO(base64.b64decode(obj["module_tar_gz_base64"])), mode="r:gz") as tf:
